@@ -183,7 +183,7 @@ func CheckStore(c SCase) (vs hx.Vs) {
 
 func TestStoreContract(t *testing.T) {
 	R.Rule("TestStoreContract", "1-20 Save/Get/Stat/maintenance/reopen calls on 3-5 ids x 4 contexts directly on the token store (memory/bolt, plain/encrypted) against a map model: insert-if-absent, context scoping, disabled and removed records; non-trivial = a Save on an id that exists in some context")
-	hx.Checks(250, 4000)
+	hx.Checks(250, 2000)
 	rapid.Check(t, func(rt *rapid.T) {
 		c := genSCase(rt)
 		vs := CheckStore(c)
